@@ -27,7 +27,7 @@ def _mutation(cls, model_name):
         lambda: ChangeMeta(model_name, 'unique_together', [('a',)]),
         lambda: RenameModel(model_name, model_name + 'X', db_table='t'),
         lambda: DeleteModel(model_name),
-    ][cls]()
+    ][hx.pick(range(7), cls)]()
 
 
 def _project():
